@@ -130,9 +130,12 @@ def specPlace (j : Json) : R Json := do
   let exPairs := before.zipIdx.flatMap (fun (m, i) => m.flatMap (fun a =>
       (before.drop (i + 1)).flatten.map (fun b => (a, b))))
   let ordExisting := orderedPairs after exPairs
-  let tagged : List (Nat × Op) := items.zipIdx.flatMap (fun (it, i) => (opsOf it.2.2.2).map (fun o => (i, o)))
-  let insPairs := tagged.zipIdx.flatMap (fun ((ia, a), pos) =>
-      (tagged.drop (pos + 1)).filterMap (fun (ib, b) => if ia ≠ ib then some (a, b) else none))
+  -- (index of the item, its boundary, may it share a moment with the suffix, operation)
+  let tagged : List (Nat × Nat × Bool × Op) := items.zipIdx.flatMap (fun (it, i) => (opsOf it.2.2.2).map (fun o => (i, it.1, it.2.2.1, o)))
+  -- items of one group keep their order; an item of an earlier group stays before the later groups unless it is one of several
+  -- operations inserted with EARLIEST, which may have landed in the moment at (or after) its insertion point
+  let insPairs := tagged.zipIdx.flatMap (fun ((ia, la, sa, a), pos) =>
+      (tagged.drop (pos + 1)).filterMap (fun (ib, lb, _, b) => if ia ≠ ib ∧ (la = lb ∨ !sa) then some (a, b) else none))
   let ordInserted := orderedPairs after insPairs
   let ordAfterPrefix := items.all (fun it =>
     orderedPairs after ((before.take it.1).flatten.flatMap (fun e => (opsOf it.2.2.2).map (fun x => (e, x)))))
